@@ -32,6 +32,8 @@ func (f fault) String() string {
 		return "every payload gets a different unknown schema id (what a consumer that restarted and lost all its state sees)"
 	case "schema_id_stale":
 		return fmt.Sprintf("payload %d gets the retired schema id %q", f.I, f.ID)
+	case "schema_id_stale_in_batch":
+		return fmt.Sprintf("payload %d gets the schema id %q, which the producer retires in this very batch (another payload type held it until now)", f.I, f.ID)
 	case "schema_id_unknown":
 		return fmt.Sprintf("payload %d gets the unknown schema id %q", f.I, f.ID)
 	}
@@ -44,7 +46,9 @@ func (f fault) String() string {
 // / reader state no longer matches the producer's; what later batches meet is
 // Arrow-internal indexing, which the property puts outside its domain. Only
 // relabelling and reordering leave every sub-stream in step.
-func (f fault) desyncs() bool { return f.Kind != "relabel" && f.Kind != "reorder" && f.Kind != "swap_labels" }
+func (f fault) desyncs() bool {
+	return f.Kind != "relabel" && f.Kind != "reorder" && f.Kind != "swap_labels"
+}
 
 func applyFault(bar *colarspb.BatchArrowRecords, f fault) {
 	ps := bar.ArrowPayloads
@@ -73,7 +77,7 @@ func applyFault(bar *colarspb.BatchArrowRecords, f fault) {
 		ps[f.I], ps[f.J] = ps[f.J], ps[f.I]
 	case "empty":
 		ps[f.I].Record = []byte{}
-	case "schema_id_unknown", "schema_id_stale":
+	case "schema_id_unknown", "schema_id_stale", "schema_id_stale_in_batch":
 		ps[f.I].SchemaId = f.ID
 	}
 }
@@ -172,6 +176,11 @@ func (r *run) runFaults() {
 	// ids retired by the producer before the target batch
 	current := map[colarspb.ArrowPayloadType]string{}
 	var retired []string
+	type staleHere struct {
+		id  string
+		typ colarspb.ArrowPayloadType
+	}
+	var retiredHere []staleHere
 	for i := 0; i < hp.nBatches; i++ {
 		r.batch = i
 		b := r.genBatch(hp, i)
@@ -210,6 +219,14 @@ func (r *run) runFaults() {
 		}
 		if i == nPrefix {
 			signal = b.signal
+			// ids the producer retires in the target batch itself: no payload of the batch
+			// carries them, but the consumer still holds their readers until it meets the
+			// superseding payload
+			for _, p := range bar.ArrowPayloads {
+				if old, ok := current[p.Type]; ok && old != p.SchemaId {
+					retiredHere = append(retiredHere, staleHere{id: old, typ: p.Type})
+				}
+			}
 		}
 		stream = append(stream, enc{bar: bar, want: want, items: len(want), signal: b.signal})
 		r.sig.Str(b.kind).Int(int64(len(bar.ArrowPayloads)))
@@ -288,8 +305,12 @@ func (r *run) runFaults() {
 		// the consumer drops all its readers when a batch fails half-way, a
 		// caller that keeps using it after an error must get errors, not a
 		// panic.)
+		// After a fault that takes a sub-stream out of step (drop, duplicate, empty, diverted
+		// message) the later batches are delivered too, but only "never panics" is asked of
+		// them: whether they decode, and to what, is Arrow-internal indexing the property
+		// leaves open.
 		if desync {
-			return
+			r.probe("batches_delivered_after_a_desynchronising_fault")
 		}
 		_ = err
 		for i := nPrefix + 1; i < len(stream); i++ {
@@ -311,6 +332,18 @@ func (r *run) runFaults() {
 	singles := singleFaults(target.bar, signal, retired)
 	for _, f := range singles {
 		trial([]fault{f})
+	}
+	// an id retired in this very batch, given to a payload of ANOTHER type that precedes the
+	// superseding payload (the same type would splice two messages into one live sub-stream:
+	// outside the domain)
+	for _, sh := range retiredHere {
+		for i, p := range target.bar.ArrowPayloads {
+			if p.Type == sh.typ {
+				break
+			}
+			trial([]fault{{Kind: "schema_id_stale_in_batch", I: i, ID: sh.id}})
+			r.probe("stale_in_batch_ids_tried")
+		}
 	}
 	r.out.Probes["single_faults_enumerated"] += len(singles)
 	// pairs and triples, tape-chosen
